@@ -255,6 +255,11 @@ def check_case(case, ctx):
         fp = os.path.join(tmp, "w.json")
         call(w.export_wallet, fp, 4, U)          # the unfiltered record is saved first, the filtered one over it
         st_, e = call(w.export_wallet, fp, 4, F)
+        if st_ == "exc" and isinstance(e, FileExistsError) and os.path.exists(fp):
+            # an implementation may refuse to write over an existing file; then the filtered record goes to a new path
+            ctx.count("export-refuses-to-overwrite (not judged)")
+            fp = os.path.join(tmp, "w-filtered.json")
+            st_, e = call(w.export_wallet, fp, 4, F)
         if st_ == "exc":
             raise Violation("C15/export/raised", "%s: export_wallet(filtered) raised %r" % (what, e))
         # the filtered record saved under a directory that does not exist yet: refused, or saved - filtered
